@@ -267,6 +267,31 @@ def apply_model(sym, n, f, vals, mut_idx, st):
         sign = 1 if raw.endswith("add") else -1
         return V(("checked", lin_norm([(vals[0], 1), (vals[1], sign)])))
 
+    # ---- str::splitn(2, pat) as the two halves of split_once(pat) ---------------------------------------------------------
+    if p == "std::iter::Iterator::next" and len(vals) == 1 and vals[0][0] == "place" and n.get("args"):
+        pl = sym.place_of(n["args"][0], st)
+        cur = None
+        if pl is not None:
+            for s2, (k2, v2) in sym.ev(strip_mut(n["args"][0]), st):
+                if k2 == VAL:
+                    cur = v2
+        if cur is not None and cur[0] == "call" and cur[1] == "core::str::splitn" and len(cur[2]) == 3 and cur[2][1] == lit_int(2):
+            src, pat = cur[2][0], cur[2][2]
+            so = ("call", "core::str::split_once", (src, pat))
+            out = []
+            for s, is_some in fork_is(sym, st, so, "Some"):
+                if is_some:
+                    pr = mk_payload(so, "Some", "0")
+                    s = sym.write_place(s, pl, ("splitn_tail", some(mk_field(pr, "1"))))
+                    out.append((s, (VAL, some(mk_field(pr, "0")))))
+                else:
+                    s = sym.write_place(s, pl, ("splitn_tail", NONE))
+                    out.append((s, (VAL, some(src))))
+            return out
+        if cur is not None and cur[0] == "splitn_tail":
+            s = sym.write_place(st, pl, ("splitn_tail", NONE))
+            return [(s, (VAL, cur[1]))]
+
     # ---- iterators (pure lookahead) -----------------------------------------------------------------------------------
     if p == "std::iter::Peekable::peek":
         v0 = vals[0]
